@@ -36,7 +36,8 @@ def cache_trace_ok(trace: str) -> bool:
     """The file-system operations of one run, in order, obey the cache protocol of C24:
 
     * the shared entry is only ever *read* (exists/open-read) or *replaced by rename* of this run's
-      temporary file, and only after that file was completely written (``dump-complete``);
+      temporary file, and only after that file was completely written (``dump-complete``) and closed
+      (``close``: buffered data has reached the file before it becomes visible under the shared name);
     * nothing is written in place to the shared entry, the only other writes go to this run's own
       temporary file (fresh uuid) and to mkdir of the cache directory;
     * besides, only the model file is read.
@@ -45,6 +46,7 @@ def cache_trace_ok(trace: str) -> bool:
     every instant either absent or a complete pickle.
     """
     complete = False
+    closed = False
     for item in [x for x in trace.split(";") if x]:
         op, _, path = item.partition(":")
         if path == "model_path":
@@ -54,7 +56,7 @@ def cache_trace_ok(trace: str) -> bool:
             if op in ("exists", "open-read"):
                 pass
             elif op == "rename-to":
-                if not complete:
+                if not (complete and closed):
                     return False
             else:
                 return False
@@ -64,8 +66,11 @@ def cache_trace_ok(trace: str) -> bool:
         elif path == TMP:
             if op == "open-write":
                 complete = False
+                closed = False
             elif op == "dump-complete":
                 complete = True
+            elif op == "close":
+                closed = True
             elif op in ("rename-from", "unlink"):
                 pass
             else:
